@@ -134,6 +134,10 @@ func runC05(c *Ctx) {
 		clause("no subscribers left", T(`^\(call:builtin:len\(%b\.subscriptions\[`+subID+`\],ok#0\.subscribers\) == 0\)$`)))
 	c.R.Floor(r5, 4)
 
+	const rdup = "C05.R7 a session is a callee of a registration at most once (no stale entry after it leaves)"
+	ruleNoDuplicateCallee(c, rdup)
+	c.R.Floor(rdup, 1)
+
 	// R6: testaments
 	const r6 = "C05.R6 testaments stored for attached sessions, consumed once"
 	ta := rlm + "testamentAdd$1"
